@@ -129,6 +129,7 @@ fn parent(prop: &'static str, tier: Tier, seed: u64) -> i32 {
 		.args(["worker", prop, tier.name(), &seed.to_string()])
 		.spawn()
 		.expect("cannot spawn worker");
+	let child_pid = child.id();
 	let status = loop {
 		match child.try_wait().expect("wait") {
 			Some(s) => break s,
@@ -163,6 +164,21 @@ fn parent(prop: &'static str, tier: Tier, seed: u64) -> i32 {
 	let vdir = framework::verif_dir();
 	let _ = std::fs::create_dir_all(vdir.join("replays"));
 	let _ = std::fs::create_dir_all(vdir.join("evidence"));
+	// cases that were in flight when a panic started (panic inside a destructor => abort)
+	let inflight = framework::collect_inflight(child_pid);
+	let mut attributed = 0;
+	for (i, (tmp, mut j)) in inflight.into_iter().enumerate() {
+		j["seed"] = json!(seed);
+		j["tier"] = json!(tier.name());
+		j["signal"] = json!(sig);
+		let path = vdir.join("replays").join(format!("{prop}-abort-{}-{seed}-{i}.json", tier.name()));
+		if std::fs::write(&path, serde_json::to_string_pretty(&j).unwrap()).is_ok() {
+			println!("VIOLATION property={} replay={}", prop, path.display());
+			eprintln!("  family={} : {}", j["family"].as_str().unwrap_or("?"), j["message"].as_str().unwrap_or("?"));
+			attributed += 1;
+		}
+		let _ = std::fs::remove_file(tmp);
+	}
 	let path = vdir.join("replays").join(format!("{prop}-crash-{}-{seed}.json", tier.name()));
 	let body = json!({
 		"property": prop,
@@ -186,6 +202,8 @@ fn parent(prop: &'static str, tier: Tier, seed: u64) -> i32 {
 		vdir.join("evidence").join(format!("{prop}.json")),
 		serde_json::to_string_pretty(&evidence).unwrap(),
 	);
-	println!("VIOLATION property={} replay={}", prop, path.display());
+	if attributed == 0 {
+		println!("VIOLATION property={} replay={}", prop, path.display());
+	}
 	1
 }
